@@ -101,7 +101,10 @@ pub fn strategy() -> impl Strategy<Value = Case> {
 
 const BASE_APIS: [&[&str]; 3] = [&["config", "show"], &["target", "show", "-g"], &["analyze", "--target-groups"]];
 /// for small configurations: APIs that look names up in `sequences` and `commands.definitions`
-const LOOKUP_APIS: [&[&str]; 4] = [
+const LOOKUP_APIS: [&[&str]; 6] = [
+    // first: what the previous serialisation's last run recorded must still be readable
+    &["result", "show"],
+    &["log", "show", "--stdout"],
     &["target", "show", "--commands"],
     &["run", "-s", "check"],
     &["run", "-s", "release"],
@@ -126,7 +129,12 @@ fn observe(env: &mut Env, apis: &[&'static [&'static str]]) -> Vec<(Option<i32>,
     let mut v = vec![];
     for api in apis {
         let o = env.mr(api);
-        let j = o.json().map(|j| if api[0] == "run" { project_run(&j) } else { bb::strip_timestamp(&j) });
+        let j = if api[0] == "log" {
+            // plain text: headers and log bytes
+            Some(Value::String(o.stdout_str()))
+        } else {
+            o.json().map(|j| if api[0] == "run" || api[0] == "result" { project_run(&j) } else { bb::strip_timestamp(&j) })
+        };
         v.push((o.code, j, o.stderr_str()));
     }
     v
@@ -180,6 +188,10 @@ pub fn check(case: &Case, w: usize) -> CheckResult {
     }
     let compact = jsonw::write(&value, &Layout::compact());
     env.write_raw_config(&compact);
+    if apis.len() > BASE_APIS.len() {
+        // a first run, so that `result show` / `log show` have something to show from the start
+        let _ = env.mr(&["run", "-c", "build", "zeta", "alpha"]);
+    }
     let reference = observe(&mut env, &apis);
     for (i, api) in apis.iter().enumerate() {
         if reference[i].0 != Some(0) || reference[i].1.is_none() {
@@ -258,8 +270,8 @@ pub fn check(case: &Case, w: usize) -> CheckResult {
         for (k, l) in layouts.iter().enumerate() {
             let bytes = jsonw::write(&gv, l);
             env.write_file("Monorail.src.json", &bytes);
-            let _ = std::fs::remove_file(env.config_path());
-            let _ = std::fs::remove_file(env.path("Monorail.lock"));
+            // (the output path still holds the file under test, or the previous generation:
+            // often longer than what is generated now)
             let g = env.mr_stdin(&["config", "generate"], &bytes);
             let generated = std::fs::read(env.config_path()).ok().and_then(|b| serde_json::from_slice::<Value>(&b).ok()).map(|mut v| {
                 if let Some(o) = v.as_object_mut() {
@@ -295,7 +307,7 @@ pub fn run(ctx: &mut Ctx) {
     ctx.rule = "a valid configuration value (small generated configs with nesting/uses/ignores/sequences, or 20-300 targets) x 4-8 serialisations by the harness's own writer: compact, pretty, \
 random inter-token whitespace, shuffled key order in every object, \\uXXXX escapes, whitespace padding before/inside/after the document up to 4000, 8191-8193, 16 KiB, 64 KiB, 200 KiB, and alignment of a non-ASCII character so that it ends before / straddles / starts at a multiple of 1-64 KiB. \
 oracle (metamorphic): the compact form is accepted, and every serialisation yields JSON-equal stdout (modulo timestamp) and equal exit status for `config show`, `target show -g`, \
-`analyze --target-groups`, and for the small configurations (4 named sequences, 4 command definitions and 3 argmap definitions on two targets, every documented optional field spelled out) also `target show --commands`, `run -s check`, `run -s release`, `run -c build zeta alpha` (failed flag and statuses); finally `config generate` is fed the value (plus a source path) on stdin in compact form and in the first three serialisations and must write the same configuration each time. non-trivial = some serialisation is larger than 8192 bytes and its first 8192 bytes are not a complete document; distinct by SHA-256"
+`analyze --target-groups`, and for the small configurations (4 named sequences, 4 command definitions and 3 argmap definitions on two targets, every documented optional field spelled out) also `result show` and `log show` (of the run made under the previous serialisation), `target show --commands`, `run -s check`, `run -s release`, `run -c build zeta alpha` (failed flag and statuses); finally `config generate` is fed the value (plus a source path) on stdin in compact form and in the first three serialisations and must write the same configuration each time. non-trivial = some serialisation is larger than 8192 bytes and its first 8192 bytes are not a complete document; distinct by SHA-256"
         .to_string();
     ctx.assumptions = vec!["validity of the value is established through the in-process hook (serde + Index), independently of file reading".into()];
     let n = ctx.n(200, 4000);
